@@ -79,8 +79,17 @@ def __sign_member(
     return rv
 
 
+def __payload_segment(value: t.Any) -> bytes:
+    # detached content (RFC 7515, appendix F): the payload has to be put
+    # back before the JWS can be verified
+    if "payload" not in value:
+        raise DecodeError("Missing payload")
+    segment: bytes = value["payload"].encode("utf-8")
+    return segment
+
+
 def extract_general_json(value: GeneralJSONSerialization) -> GeneralJSONSignature:
-    payload_segment: bytes = value["payload"].encode("utf-8")
+    payload_segment: bytes = __payload_segment(value)
     try:
         payload = urlsafe_b64decode(payload_segment)
     except (TypeError, ValueError):
@@ -95,7 +104,7 @@ def extract_general_json(value: GeneralJSONSerialization) -> GeneralJSONSignatur
 
 
 def extract_flattened_json(value: FlattenedJSONSerialization) -> FlattenedJSONSignature:
-    payload_segment: bytes = value["payload"].encode("utf-8")
+    payload_segment: bytes = __payload_segment(value)
     try:
         payload = urlsafe_b64decode(payload_segment)
     except (TypeError, ValueError):
